@@ -511,6 +511,64 @@ def h4(rep, src):
             rep.violation("H4", "try_from_join@" + need, "no literal arm for JoinConstraint::%s" % need, f.where())
 
 
+def h5(rep, src):
+    """CTE / table-name scoping in sql/query_names.rs: which references a WITH definition captures."""
+    from .core import walk_guards
+
+    rep.rule(
+        "H5",
+        "QueryNames::set binds a definition to a reference only when the reference's whole ObjectName equals the defined name (exact path, not a trailing component) "
+        "and the reference is still unresolved (`is_none()`): inner definitions, visited first, are never overwritten by outer ones",
+        floor=1,
+        necessary="matching on the last component lets `WITH orders AS ..` capture `sales.orders`; re-binding resolved references lets an outer CTE replace an inner CTE of the same name: a name is silently bound to another candidate",
+    )
+    f = src.one_fn(name="set", file="sql/query_names.rs", self_ty_re=r"^QueryNames")
+    ps = [p["pat"]["name"] for p in f.params if not p.get("self") and p["pat"]["k"] == "ident"]
+    name_p, ref_p = ps[0], ps[1]
+    assigns = []
+    for n, guards in walk_guards(f.body):
+        if n["k"] == "assign" and any(x["k"] == "path" and x["segs"] == [ref_p] for x in walk(n["rhs"])):
+            assigns.append((n, guards))
+    key = "QueryNames::set"
+    if not assigns:
+        rep.undecidable("H5", key, "no assignment of the referred query found", f.where())
+        return
+    for n, guards in assigns:
+        conds = [g[1] for g in guards if g[0] == "if" and g[2] is True]
+        # iterator style: .filter(|..| cond) before the closure that assigns
+        for m in find(f.body, "mcall"):
+            if m["m"] in ("for_each", "map") and m["args"] and m["args"][0]["k"] == "closure" and any(x is n for x in walk(m["args"][0])):
+                r = m["recv"]
+                while r["k"] == "mcall":
+                    if r["m"] == "filter" and r["args"] and r["args"][0]["k"] == "closure":
+                        conds.append(r["args"][0]["body"])
+                    r = r["recv"]
+        atoms = []
+        for c in conds:
+            st = [c]
+            while st:
+                x = st.pop()
+                while x["k"] == "block" and len(x["stmts"]) == 1 and x["stmts"][0]["k"] == "expr":
+                    x = x["stmts"][0]["e"]
+                if x["k"] == "binary" and x["op"] == "&&":
+                    st += [x["lhs"], x["rhs"]]
+                else:
+                    atoms.append(x)
+
+        def bare(e):
+            while e["k"] in ("unary", "ref"):
+                e = e["e"]
+            return e["k"] == "path" and len(e["segs"]) == 1
+
+        exact = [a for a in atoms if a["k"] == "binary" and a["op"] == "==" and bare(a["lhs"]) and bare(a["rhs"]) and name_p in (show(a["lhs"], 0).lstrip("*&"), show(a["rhs"], 0).lstrip("*&"))]
+        unresolved = [a for a in atoms if a["k"] == "mcall" and a["m"] == "is_none" and bare(a["recv"])]
+        rep.instance("H5", key, {"conditions": [show(a, 60) for a in atoms], "exact_name_match": bool(exact), "only_unresolved": bool(unresolved)})
+        if not exact:
+            rep.violation("H5", key + "@exact", "the definition is not matched on the whole ObjectName (`n == %s`): conditions %s" % (name_p, [show(a, 60) for a in atoms]), f.where())
+        if not unresolved:
+            rep.violation("H5", key + "@unresolved", "already resolved references are re-bound (no `is_none()` guard): an outer definition overrides an inner one", f.where())
+
+
 def run(rep):
     rep.explanation = (
         "Static arm-table check of hierarchy.rs (syn AST of the current tree). Decides: the suffix search counts matches with an absorbing `More` and only a single match "
@@ -528,5 +586,6 @@ def run(rep):
         h1(rep, src, gkv, fold, pred or "is_suffix_of")
     h3(rep, src)
     h4(rep, src)
+    h5(rep, src)
     rep.assume("rustc accepts the tree (the syn facts are parsed from the same files the build uses)")
     rep.assume("BTreeMap in hierarchy.rs is std::collections::BTreeMap (no local item of that name: checked)")
